@@ -1,3 +1,4 @@
+import Copia.Gen.Constants
 import Copia.Model.Deliver
 /-!
 # C09 — one-way delivery is atomic under a crash at any point (micro-step model)
@@ -90,5 +91,56 @@ example : ({ dest := some [9, 9], tmp := some [1], stamped := false } : DState).
 example : ((deliverSteps [[1, 2], [3]]).take 3).foldl exec { dest := some [7], tmp := none, stamped := false }
     = { dest := some [7], tmp := some [1, 2, 3], stamped := false } := by decide
 example : (remotePush { dest := some [7], tmp := none, stamped := false } [[1, 2]] 3).dest = some [7] := by decide
+
+/-- one NUL-free name followed by its NUL is one item -/
+theorem xargsItems_name (n : Bytes) (hn : (0 : Nat) ∉ n) (cur tail : Bytes) :
+    xargsItems (n ++ 0 :: tail) cur = (cur ++ n) :: xargsItems tail [] := by
+  induction n generalizing cur with
+  | nil => simp [xargsItems]
+  | cons b bs ih =>
+    have hb : b ≠ 0 := fun e => hn (by simp [e])
+    have hbs : (0 : Nat) ∉ bs := fun h => hn (by simp [h])
+    simp only [List.cons_append, xargsItems, hb, if_false]
+    rw [ih hbs (cur ++ [b])]
+    simp
+
+theorem xargs_complete_list (names : List Bytes) (hn : ∀ n ∈ names, (0 : Nat) ∉ n) :
+    xargsItems (nulJoin names) [] = names := by
+  induction names with
+  | nil => simp [nulJoin, xargsItems]
+  | cons n rest ih =>
+    simp only [nulJoin]
+    rw [xargsItems_name n (hn n (by simp)) [] (nulJoin rest)]
+    simp [ih (fun m hm => hn m (by simp [hm]))]
+
+/-- C09 / C04 (push `--delete`, remote `mkdir`; D18 repair): whatever part of the name list reached the remote
+command before the sender died, the tool is run on EXACTLY the planned names or on nothing — never on a name cut
+in the middle. -/
+theorem list_atomic (names : List Bytes) (hn : ∀ n ∈ names, (0 : Nat) ∉ n) (k : Nat) :
+    guardedXargs ((nulJoin names).take k) (nulJoin names).length = names ∨
+    guardedXargs ((nulJoin names).take k) (nulJoin names).length = [] := by
+  unfold guardedXargs
+  split
+  · next h =>
+    left
+    have : (nulJoin names).take k = nulJoin names := by
+      apply List.take_of_length_le
+      rw [List.length_take] at h
+      omega
+    rw [this]; exact xargs_complete_list names hn
+  · right; rfl
+
+/-- … which the command of the code before the repair did not guarantee: a list cut inside the second name
+makes plain `xargs -0` run the tool on a prefix of that name (kernel-checked witness: names "ab", "cd", cut after 4 bytes → "ab", "c") -/
+theorem plain_xargs_runs_on_a_cut_name :
+    plainXargs ((nulJoin [[97, 98], [99, 100]]).take 4) = [[97, 98], [99]] := by decide
+
+/-- the remote command as it stands in the source on this run (regenerated into `Gen.guardedXargs`; the extractor also
+checks that no call site hands a list to a bare `xargs`): stage the whole stream, compare its size with the announced
+length, and only then run `xargs -0` on the staged list — the command `guardedXargs` models -/
+theorem source_list_command_is_guarded :
+    Copia.Gen.guardedXargs =
+      "t=$(mktemp) && cat > \"$t\" && [ \"$(wc -c < \"$t\")\" -eq {len} ] && xargs -0 {tool} < \"$t\"; r=$?; rm -f \"$t\"; exit $r" := by
+  decide
 
 end Copia.C09
